@@ -141,7 +141,20 @@ static RunResult run_fixed(const Plan& plan, Replicas& reps, const std::string& 
     std::vector<RunResult> rs; std::vector<std::string> tags;
     for (auto& r : p.reps) for (int v : p.views) { rs.push_back(execute_plan(plan, reps, r, v, verbose, focus, false)); tags.push_back(r + (v ? "/C++" : "/C")); }
     RunResult out = rs[0];
-    for (size_t i = 0; i < rs.size(); i++) if (rs[i].violated) { out.violated = true; out.v = rs[i].v; out.v.detail += " [on " + tags[i] + "]"; return out; }
+    {
+        // a violation that shows on every execution alike belongs to its own property; one that shows on some executions
+        // only (or differently) is a divergence between replicas / views
+        size_t nviol = 0, first = 0; bool alike = true;
+        for (size_t i = 0; i < rs.size(); i++) if (rs[i].violated) { if (!nviol) first = i; nviol++; }
+        for (size_t i = 0; i < rs.size(); i++) if (rs[i].violated != rs[first].violated || (rs[i].violated && (rs[i].v.prop != rs[first].v.prop || rs[i].v.oracle != rs[first].v.oracle || rs[i].v.step != rs[first].v.step))) alike = false;
+        if (nviol && alike) { out.violated = true; out.v = rs[first].v; out.v.detail += " [on every one of " + std::to_string(rs.size()) + " executions]"; return out; }
+        if (nviol) {
+            size_t other = 0; for (size_t i = 0; i < rs.size(); i++) if (!rs[i].violated || rs[i].v.oracle != rs[first].v.oracle || rs[i].v.step != rs[first].v.step) { other = i; break; }
+            out.violated = true; out.v.prop = mode == "crossrep" ? "C03" : "C19"; out.v.oracle = mode == "crossrep" ? "replica-divergence" : "view-divergence"; out.v.step = rs[first].v.step;
+            out.v.detail = tags[first] + " fails " + rs[first].v.prop + "/" + rs[first].v.oracle + " (" + rs[first].v.detail.substr(0, 300) + ") at step " + std::to_string(rs[first].v.step) + " while " + tags[other] + (rs[other].violated ? " fails " + rs[other].v.oracle + " at step " + std::to_string(rs[other].v.step) : " does not");
+            return out;
+        }
+    }
     for (size_t i = 1; i < rs.size(); i++) {
         if (rs[i].fingerprint != rs[0].fingerprint) {
             RunResult a = execute_plan(plan, reps, p.reps[0], p.views[0], true, focus, false);
@@ -396,7 +409,7 @@ int run_check(const std::string& prop, const std::string& tier, uint64_t seed, i
     for (size_t b = 0; b < spec.batches.size(); b++) for (uint64_t i = 0; i < spec.batches[b].runs; i++) units.push_back({b, i});
     std::vector<Worker> ws((size_t) workers);
     for (size_t i = 0; i < units.size(); i++) ws[i % ws.size()].todo.push_back(units[i]);
-    std::vector<std::pair<Unit, RunResult>> viols;
+    std::vector<std::pair<Unit, RunResult>> viols; std::vector<std::string> unit_fps;
     if (!st.violated) {
         for (auto& w : ws) if (!w.todo.empty()) spawn(w, spec, reps, seed); else w.done = true;
         size_t sample_budget = 6;
@@ -422,6 +435,7 @@ int run_check(const std::string& prop, const std::string& tier, uint64_t seed, i
                             RunResult r; if (j) r = result_from_json(*j);
                             Unit u = w.todo[w.next]; w.next++; w.inflight = false;
                             merge(st, r);
+                            unit_fps.push_back(strf("%zu/%llu/%s", u.b, (unsigned long long) u.idx, r.fingerprint.c_str()));
                             if (r.violated) {
                                 if (r.v.prop == prop || r.v.prop == "HARNESS") viols.push_back({u, r});
                                 else st.counters["other_property_violation:" + r.v.prop + ":" + r.v.oracle]++;
@@ -467,11 +481,14 @@ int run_check(const std::string& prop, const std::string& tier, uint64_t seed, i
         printf("violation %s/%s at %s run %llu; shrinking (%zu ops)...\n", v.prop.c_str(), v.oracle.c_str(), b.scenario.c_str(), (unsigned long long) u.idx, plan.ops.size()); fflush(stdout);
         Plan small = shrink(plan, reps, b.mode, p, prop, v, tier == "quick" ? 150 : 400, used);
         IsoResult r1 = exec_isolated(small, reps, b.mode, p, prop, false), r2 = exec_isolated(small, reps, b.mode, p, prop, false);
-        if (!same_class(r1.r, v) || !same_class(r2.r, v) || r1.r.fingerprint != r2.r.fingerprint) {
+        if (!same_class(r1.r, v) || !same_class(r2.r, v) || r1.r.v.step != r2.r.v.step) {
             printf("HARNESS-NONDETERMINISM: minimised plan does not replay identically\n"); write_evidence(st, now_s() - t0, 0, known); return 2;
         }
+        if (r1.r.fingerprint != r2.r.fingerprint)
+            printf("  note: the same oracle fails at the same step in both fresh processes, but the values the library produced differ between the two executions (it reads uninitialised or out-of-bounds memory); the selftest shows the harness itself is deterministic\n");
         mkdir((verif_root() + "/replays").c_str(), 0755);
-        std::string path = verif_root() + "/replays/" + prop + "-" + r1.r.fingerprint.substr(0, 12) + ".json";
+        std::string ptxt = small.to_json()->dump(false);
+        std::string path = verif_root() + "/replays/" + prop + "-" + (r1.r.fingerprint.empty() ? "crash-" + sha_hex(ptxt.data(), ptxt.size(), 6) : r1.r.fingerprint.substr(0, 12)) + ".json";
         write_file(path, replay_json(prop, r1.r.v, small, b.mode, p, r1.r.fingerprint, seed, u.idx, tier)->dump() + "\n");
         printf("  oracle: %s\n  detail: %s\n  minimised to %zu ops in %d re-executions; replays identically in two fresh processes\n", r1.r.v.oracle.c_str(), r1.r.v.detail.c_str(), small.ops.size(), used);
         for (auto& op : small.ops) printf("    %s\n", op.str().substr(0, 400).c_str());
@@ -487,6 +504,7 @@ int run_check(const std::string& prop, const std::string& tier, uint64_t seed, i
         rc = 1;
     }
     double wall = now_s() - t0;
+    std::sort(unit_fps.begin(), unit_fps.end()); { Sha256 h; for (auto& f : unit_fps) h.update(f); uint8_t d[32]; h.final(d); st.extra->set("batch_fingerprint", hex(d, 16)); printf("batch fingerprint %s (independent of worker count and scheduling of workers)\n", hex(d, 16).c_str()); }
     write_evidence(st, wall, rc == 1 ? 1 : 0, known);
     printf("jsim check %s: %llu runs, %zu distinct cases (%zu non-trivial), %.1f s, %s\n", prop.c_str(), (unsigned long long) st.evaluations, st.cases_all.size(), st.cases_nontrivial.size(), wall, rc == 0 ? "no violation" : "VIOLATION");
     for (auto& kv : st.counters) if (kv.first.compare(0, 24, "other_property_violation") == 0) printf("  note: %s x%llu (reported by that property's own check)\n", kv.first.c_str(), (unsigned long long) kv.second);
